@@ -73,6 +73,15 @@ def main():
             meta["suite_stable_pass_lost"] = lost[:10]
             meta["ran"].append("full unedited suite in the patched worktree: " + meta["suite_summary"])
             os.remove(junit)
+        prev = os.path.join(VERIF, "seeded", sid, "meta.json")
+        if no_suite and os.path.exists(prev):
+            # a re-confirmation after the checks were strengthened: the suite result of the first confirmation stands
+            old = json.load(open(prev))
+            for k in ("suite_summary", "suite_stable_pass_lost"):
+                if k in old:
+                    meta[k] = old[k]
+            meta["ran"] += [x for x in old.get("ran", []) if x.startswith("full unedited suite")]
+            meta["first_confirmation_detected"] = old.get("first_confirmation_detected", old.get("detected"))
         results = {}
         for pr in [prop] + extra_checks:
             rc, out = sh(["./check", pr, "--tier", "quick"], cwd=VERIF, env={"VERIF_REPO": wt}, timeout=3000)
@@ -81,11 +90,11 @@ def main():
             meta["ran"].append(f"VERIF_REPO=<patched worktree> ./check {pr} --tier quick -> exit {rc}")
         meta["check_results"] = results
         meta["detected"] = any(r["rc"] == 1 for r in results.values())
-        meta["valid_seed"] = (rc0 == 0 and rc1 != 0 and (no_suite or not meta["suite_stable_pass_lost"]))
+        meta["valid_seed"] = (rc0 == 0 and rc1 != 0 and not meta.get("suite_stable_pass_lost", [] if no_suite else ["?"]))
         dst = os.path.join(VERIF, "seeded", sid)
         os.makedirs(dst, exist_ok=True)
         for f in ("patch.diff", "demo.py", "notes.txt"):
-            if os.path.exists(os.path.join(src, f)):
+            if os.path.exists(os.path.join(src, f)) and os.path.realpath(src) != os.path.realpath(dst):
                 shutil.copy(os.path.join(src, f), dst)
         if os.path.exists(os.path.join(src, "notes.txt")):
             meta["needs_to_manifest"] = open(os.path.join(src, "notes.txt")).read()[:1500]
